@@ -115,7 +115,21 @@ func (n *AhocorasickSlimtrie) MatchDomainBitmap(domain string) (bitmap []uint32)
 	// 	}
 	// }
 	// Suffix matching.
-	suffixTrieDomain := ToSuffixTrieString("^" + domain)
+	// '^' and '$' mark the start and the end of a name inside the trie keys. A
+	// queried name that contains one of them itself (names come from the
+	// network) would let a part of it pass for a whole name: hand such bytes
+	// to the trie as a byte outside its alphabet, which matches nothing.
+	trieDomain := domain
+	if strings.ContainsAny(domain, "^$") {
+		b := []byte(domain)
+		for i, c := range b {
+			if c == '^' || c == '$' {
+				b[i] = 0
+			}
+		}
+		trieDomain = string(b)
+	}
+	suffixTrieDomain := ToSuffixTrieString("^" + trieDomain)
 	for _, i := range n.validTrieIndexes {
 		if bitmap[i/32]&(1<<(i%32)) > 0 {
 			// Already matched.
